@@ -304,6 +304,23 @@ def set_val(pairs):
 
 def build(ctx, consts):
     g = Gen('C05')
+    _trace = g.trace
+
+    def soft_trace(name, *a, **k):
+        """fail-soft: a constructor the tracer can no longer execute on symbols is a finding (the theorems that mention its
+        trace are then reported as not shown), the rest of the check goes on"""
+        k['optional'] = True
+        try:
+            t = _trace(name, *a, **k)
+        except Exception as ex:                       # printer / shape errors are raised even for optional traces
+            g.failed.append((name, f"{type(ex).__name__}: {ex}"))
+            t = None
+        if t is None:
+            why = [r for n_, r in g.failed if n_ == name][-1:] or ['?']
+            ctx.fail(f'tsym:{name}:cannot-trace', f"the library call behind trace {name} can no longer be executed on symbols: {why[0]}"[:600],
+                     {'trace': name, 'reason': why[0][:1500]}, no_input=True)
+        return t
+    g.trace = soft_trace
     S3 = [('r', 'S'), ('p', 'S'), ('y', 'S')]
     for o, alias in ORDERS.items():
         g.trace(f'tr_rpy2r_{o}', S3, (lambda o: lambda r, p, y: base.rpy2r(r, p, y, order=o))(o))
@@ -326,6 +343,14 @@ def build(ctx, consts):
     g.trace('tr_xyt2tr', [('a', 'V3')], lambda a: base.xyt2tr(a))
     g.trace('tr_xyt2tr_deg', [('a', 'V3')], lambda a: base.xyt2tr(a, unit='deg'))
     g.trace('tr_SE2_xyt', [('a', 'V3')], lambda a: SE2(a[0], a[1], a[2]).A)
+    # quaternion route of the UnitQuaternion accessors (rpy/eul/angvec all go through .R): both representatives give one matrix
+    g.trace('tr_q2r', [('q', 'V4')], lambda q: base.q2r(q))
+    def uq_R(q):
+        x = UnitQuaternion()
+        x.data = [q]              # the constructor cannot take symbols; the accessor .R is executed on the symbolic value
+        return x.R
+    g.trace('tr_UQ_R', [('q', 'V4')], uq_R, num_fn=lambda q: UnitQuaternion(q, norm=False, check=False).R,
+            sampler=lambda rng: [rand_unit(rng, 4)])      # unit quaternions of either sign of the scalar part
     # axis-angle: Rodrigues about the normalised axis (path: |v| >= 10 eps; the norm test is decided concolically)
     set_val({'v0': 0.3, 'v1': -0.5, 'v2': 0.8, 'th': 0.7})
     with concolic.object_alloc():
@@ -425,6 +450,17 @@ def angle_grid(rng, sing, n_rand):
         yield float(rng.uniform(-PI, PI)), (None, None)
 
 
+def uq_variants(rng, q):
+    """both double-cover representatives of a unit quaternion and a product form (sign of the scalar part arbitrary):
+    every UnitQuaternion extraction is fed all three"""
+    a = UnitQuaternion(SO3(np.array(base.rpy2r(*rng.uniform(-PI, PI, 3)), float), check=False))
+    qs = {'UQ': q, 'UQneg': UnitQuaternion(-np.asarray(q.vec, float), norm=False, check=False), 'UQprod': a * (a.inv() * q)}
+    s0 = float(qs['UQ'].vec[0])
+    if s0 != 0 and not (np.sign(qs['UQneg'].vec[0]) == -np.sign(s0)):
+        raise RuntimeError('harness: could not build the opposite double-cover representative')
+    return qs
+
+
 def oracle_rpy(ctx):
     rng = ctx.rng
     nr = ctx.n(300, 6000)
@@ -447,8 +483,9 @@ def oracle_rpy(ctx):
                     'UQ': (None, None),
                     'composed': (Q.T @ (Q @ R0), lambda R, od, u: base.tr2rpy(R, order=od, unit=u)),
                 }
-                q = UnitQuaternion.RPY([r, p, y], order=order)
-                inputs['UQ'] = (np.array(q.R, float), lambda R, od, u, q=q: q.rpy(order=od, unit=u))
+                del inputs['UQ']
+                for nm_, q in uq_variants(rng, UnitQuaternion.RPY([r, p, y], order=order)).items():
+                    inputs[nm_] = (np.array(q.R, float), lambda R, od, u, q=q: q.rpy(order=od, unit=u))
                 for site, (R, f) in inputs.items():
                     od = alias if rng.random() < 0.3 else order
                     sig = ('rpy', site, order, s, o)
@@ -462,6 +499,8 @@ def oracle_rpy(ctx):
                         ctx.fail(f'oracle:rpy:{site}:raises:{type(ex).__name__}', f"tr2rpy via {site} raises {type(ex).__name__}: {ex}", rep)
                         continue
                     rep['angles_out'] = a.tolist()
+                    if site.startswith('UQ') and not np.allclose(a, np.asarray(base.tr2rpy(R, order=od), float), rtol=0, atol=1e-12):
+                        ctx.fail(f'oracle:rpy:{site}:differs-from-base', f"UnitQuaternion.rpy gives {a}, base.tr2rpy on its rotation matrix {base.tr2rpy(R, order=od)}", rep)
                     err = float(np.max(np.abs(np.array(base.rpy2r(a, order=order), float) - R))) if np.all(np.isfinite(a)) else float('inf')
                     ctx.stats['worst:rpy:rebuild'] = max(ctx.stats.get('worst:rpy:rebuild', 0.0), err)
                     if not err <= 1e-6:
@@ -494,9 +533,10 @@ def oracle_eul(ctx):
                 'base44': (R0, lambda R, fl, u: base.tr2eul(r2t(R), flip=fl, unit=u)),
                 'SO3': (R0, lambda R, fl, u: SO3(R, check=False).eul(flip=fl, unit=u)),
                 'SE3': (R0, lambda R, fl, u: SE3(r2t(R), check=False).eul(flip=fl, unit=u)),
-                'UQ': (np.array(q.R, float), lambda R, fl, u, q=q: q.eul(unit=u)),
                 'composed': (Q.T @ (Q @ R0), lambda R, fl, u: base.tr2eul(R, flip=fl, unit=u)),
             }
+            for nm_, qv in uq_variants(rng, q).items():
+                sites[nm_] = (np.array(qv.R, float), lambda R, fl, u, q=qv: q.eul(unit=u))
             for site, (R, f) in sites.items():
                 for fl in (False, True):
                     ctx.case(('eul', site, fl, s, o, a0, c0))
@@ -509,6 +549,8 @@ def oracle_eul(ctx):
                         ctx.fail(f'oracle:eul:{site}:raises:{type(ex).__name__}', f"tr2eul via {site} raises {type(ex).__name__}: {ex}", rep)
                         continue
                     rep['angles_out'] = e.tolist()
+                    if site.startswith('UQ') and not np.allclose(e, np.asarray(base.tr2eul(R), float), rtol=0, atol=1e-12):
+                        ctx.fail(f'oracle:eul:{site}:differs-from-base', f"UnitQuaternion.eul gives {e}, base.tr2eul on its rotation matrix {base.tr2eul(R)}", rep)
                     err = float(np.max(np.abs(np.array(base.eul2r(e), float) - R))) if np.all(np.isfinite(e)) else float('inf')
                     ctx.stats['worst:eul:rebuild'] = max(ctx.stats.get('worst:eul:rebuild', 0.0), err)
                     if not err <= 1e-6:
@@ -536,6 +578,7 @@ def oracle_angvec(ctx):
             if np.max(np.abs(R - Rref)) > 1e-9:
                 ctx.fail('oracle:angvec2r:not-rodrigues', f"angvec2r differs from rotation by theta about the normalised axis: {np.max(np.abs(R - Rref)):g}",
                          {'theta': th, 'v_hex': hexl(v)})
+                R = Rref          # the extraction checks go on with the independent Rodrigues matrix
             th_true = abs(math.remainder(th, 2 * PI))       # rotation angle in [0, pi]
             q = UnitQuaternion(SO3(R, check=False))
             sites = {
@@ -543,13 +586,15 @@ def oracle_angvec(ctx):
                 'base44': lambda u: base.tr2angvec(r2t(R), unit=u),
                 'SO3': lambda u: SO3(R, check=False).angvec(unit=u),
                 'SE3': lambda u: SE3(r2t(R), check=False).angvec(unit=u),
-                'UQ': lambda u: q.angvec(unit=u),
             }
+            uqs = uq_variants(rng, q)
+            for nm_, qv in uqs.items():
+                sites[nm_] = (lambda u, q=qv: q.angvec(unit=u))
             for site, f in sites.items():
                 ctx.case(('angvec', site, s, o, tuple(v)))
                 ctx.count(f'oracle:angvec:{site}')
                 rep = {'site': site, 'theta_in': th, 'axis_in_hex': hexl(v), 'R_hex': hexl(R), 'singular_value': s, 'offset': o}
-                Rin = np.array(q.R, float) if site == 'UQ' else R
+                Rin = np.array(uqs[site].R, float) if site in uqs else R
                 try:
                     with np.errstate(all='ignore'):
                         t, ax = f('rad')
@@ -568,6 +613,11 @@ def oracle_angvec(ctx):
                 err = float(np.max(np.abs(Rb - Rin)))
                 if th_true > 1e-3 and PI - th_true > 1e-3:
                     ctx.stats['worst:angvec:rebuild:generic'] = max(ctx.stats.get('worst:angvec:rebuild:generic', 0.0), err)
+                if site in uqs:
+                    tb_, axb_ = base.tr2angvec(Rin)
+                    if not (abs(t - tb_) <= 1e-12 and np.allclose(ax, np.asarray(axb_, float), rtol=0, atol=1e-12)):
+                        ctx.fail(f'oracle:angvec:{site}:differs-from-base', f"UnitQuaternion.angvec gives ({t!r}, {ax}) for q = {uqs[site].vec}, "
+                                 f"base.tr2angvec on its rotation matrix ({tb_!r}, {axb_})", dict(rep, q=np.asarray(uqs[site].vec, float).tolist()))
                 ctx.stats['worst:angvec:rebuild'] = max(ctx.stats.get('worst:angvec:rebuild', 0.0), err)
                 if not err <= 1e-6:
                     ctx.fail(f'oracle:angvec:{site}:rebuild', f"angvec2r(tr2angvec(R)) differs from R by {err:g} (rotation angle {th_true:g})", rep)
@@ -639,7 +689,8 @@ def oracle_multi(ctx):
             else:
                 Rs.append(np.array(base.rpy2r(*rng.uniform(-PI, PI, 3)), float))
         objs = {'SO3': SO3(Rs, check=False), 'SE3': SE3([r2t(R, rng.normal(size=3)) for R in Rs], check=False),
-                'UQ': UnitQuaternion([base.r2q(R) for R in Rs])}
+                'UQ': UnitQuaternion([(-1.0 if (i == it % n or rng.random() < 0.5) else 1.0) * np.asarray(base.r2q(R), float) for i, R in enumerate(Rs)],
+                                      norm=False, check=False)}
         for site, X in objs.items():
             elem = (lambda a, i: np.asarray(a, float)[i]) if site == 'UQ' else (lambda a, i: np.asarray(a, float)[:, i])
             Rel = [np.array(x.R, float) for x in X] if site == 'UQ' else Rs
@@ -783,9 +834,12 @@ def run(ctx):
                 if sub.traces:
                     sym_num(ctx, sub, MOD, 1500)
     with ctx.timed('oracle'):
-        oracle_rpy(ctx)
-        oracle_eul(ctx)
-        oracle_angvec(ctx)
-        oracle_planar(ctx)
-        oracle_multi(ctx)
-        oracle_multi_planar(ctx)
+        import traceback
+        for orc in (oracle_rpy, oracle_eul, oracle_angvec, oracle_planar, oracle_multi, oracle_multi_planar):
+            try:                                  # fail-soft: an oracle group that cannot go on is a finding, the others still run
+                orc(ctx)
+            except Exception as ex:
+                tb = traceback.format_exc()
+                ctx.fail(f'oracle:{orc.__name__}:aborted:{type(ex).__name__}',
+                         f"{orc.__name__} could not go on (inputs it builds with the library are rejected or a call raised): {type(ex).__name__}: {ex}"[:600],
+                         {'traceback': tb[-2500:]}, no_input=True)
